@@ -256,6 +256,13 @@ theorem skip_reports_background (failed : Bool) (s : Cmds.St) (args : List Bytes
   rw [hf, hbg, Cmds.waitAll_contradiction true pre post b hpre hb]
   simp [hl, Cmds.fatal]
 
+/-- `exec vh exit:1 &`, no `wait`, then `skip`: the line fails; with `! exec … &` the script is skipped. -/
+example :
+    let quickFail (neg : Bool) : Cmds.Bg := ⟨[], neg, [], [], 1, false, false⟩
+    (Cmds.cmdSkip false { Cmds.initSt with bg := [quickFail false] } false []).2 = .fatal ∧
+    (Cmds.cmdSkip false { Cmds.initSt with bg := [quickFail true] } false []).2 = .skip := by
+  decide
+
 /-- `wait` (no name) ends `ok` only if every outstanding background command ended as its line demands;
 then `ts.background` is empty and stdout / stderr are the outputs joined in order. -/
 theorem wait_only_if_background_ok (failed : Bool) (s : Cmds.St) (neg : Bool)
@@ -287,6 +294,13 @@ theorem wait_reports_background (failed : Bool) (s : Cmds.St) (pre post : List C
   rw [hbg, Cmds.waitAll_contradiction false pre post b hpre hb]
   simp [Cmds.fatal]
 
+/-- `exec vh exit:1 &` then `wait`: the line fails; with `! exec … &` it is fine. -/
+example :
+    let quickFail (neg : Bool) : Cmds.Bg := ⟨[], neg, [], [], 1, false, false⟩
+    (Cmds.cmdWait false { Cmds.initSt with bg := [quickFail false] } false []).2 = .fatal ∧
+    (Cmds.cmdWait false { Cmds.initSt with bg := [quickFail true] } false []).2 = .ok := by
+  decide
+
 /-- `exec prog … &` (helper found) never fails by itself, whatever the helper will do: it appends one
 entry carrying the line's `!`, clears the buffers and consumes stdin. -/
 theorem exec_background_records (s : Cmds.St) (neg : Bool) (hargs : List Bytes) (name : Bytes) (r : Cmds.HRes)
@@ -306,16 +320,6 @@ theorem exec_foreground_status (s : Cmds.St) (neg : Bool) (hargs : List Bytes) (
   have hp : Cmds.progOf (lit "vh") = .helper := by decide +kernel
   simp only [Cmds.execFg, hp, hr, hb]
   by_cases h : (r.status == 0) = neg <;> simp [h, Cmds.fatal, Cmds.okay]
-
-/-- `exec vh exit:1 &`, no `wait`, then `skip`: the line fails; with `! exec … &` the script is skipped;
-`wait` instead of `skip` fails / passes likewise. -/
-example :
-    let quickFail (neg : Bool) : Cmds.Bg := ⟨[], neg, [], [], 1, false, false⟩
-    (Cmds.cmdSkip false { Cmds.initSt with bg := [quickFail false] } false []).2 = .fatal ∧
-    (Cmds.cmdSkip false { Cmds.initSt with bg := [quickFail true] } false []).2 = .skip ∧
-    (Cmds.cmdWait false { Cmds.initSt with bg := [quickFail false] } false []).2 = .fatal ∧
-    (Cmds.cmdWait false { Cmds.initSt with bg := [quickFail true] } false []).2 = .ok := by
-  decide
 
 example : Cmds.BgAsDemanded true ⟨[], true, [], [], 0, true, false⟩ ∧
     Cmds.bgStatus true (⟨[], false, [], [], 0, true, false⟩ : Cmds.Bg) = some false :=
